@@ -31,7 +31,7 @@ var specs = map[string]spec{
 		Level:     "model_checking",
 		Rule:      "a state is a distinct generated template (expression x syntactic position x parenthesisation); a transition is one compile+render compared with the reference evaluator; non-trivial = the reference defines the result (value or mandatory error), i.e. not an unspecified cell",
 		Bounds: map[string]string{
-			"quick":    "S1 all 14 binary ops x 50x50 atoms + unary/ternary; S2 all operator pairs in both groupings over 11 operand triples (minimal and full parentheses); S3 20 positions x 70 shapes + atoms; S4 reference chains <=2 accesses on 9 roots; S5 functions",
+			"quick":    "S1 all 14 binary ops x 50x50 atoms + unary/ternary; S2 all operator pairs in both groupings over 11 operand triples (minimal and full parentheses); S3 20 positions x 70 shapes + atoms; S4 reference chains <=2 accesses on 9 roots; S5 functions incl. calls nested in every argument position; S6 every argument-splicing context; S5/S6 also printed twice after an earlier call; S7 operands arriving as data",
 			"thorough": "adds three-operator nestings (14^3 x 3 shapes x 11 triples) and reference chains of 3 accesses",
 		},
 		Assumptions: commonAssumptions, Plain: true, QuickStride: 1, ThoroughStride: 1, QuickDeadline: 420, ThoroughDeadline: 3000,
@@ -43,7 +43,7 @@ var specs = map[string]spec{
 		Level:     "model_checking",
 		Rule:      "a state is a distinct source text; a transition is one parse/print/parse round trip; non-trivial = the source parsed (so a printed form exists and was re-parsed)",
 		Bounds: map[string]string{
-			"quick":    "C01 strata S1,S2,S4,S5 (minimal and full parentheses), 70 shapes x 9 directive chains as print commands, 8^3 operator triples x 8 depth-3 shapes, 70 special literals",
+			"quick":    "C01 strata S1,S2,S4,S5 (minimal and full parentheses), 70 shapes x 9 directive chains as print commands, 8^3 operator triples x 8 depth-3 shapes, 85 special literals incl. floats >= 1e21; the printed text must parse alone and, completely, inside brackets",
 			"thorough": "14^3 operator triples, three-operator nestings of S2",
 		},
 		Assumptions: commonAssumptions, Plain: true, QuickStride: 1, ThoroughStride: 1, QuickDeadline: 420, ThoroughDeadline: 3000,
@@ -79,7 +79,7 @@ var specs = map[string]spec{
 		Level:     "model_checking",
 		Rule:      "a state is a distinct bundle (body x declarations x mutation); a transition is one compilation (plus one probed render when accepted); every case is non-trivial (a verdict accept/reject is compared)",
 		Bounds: map[string]string{
-			"quick":    "all C02 bodies unmutated; mutations (7 site kinds at every site, declaration drops, unused param, both declaration styles) on every sixth body",
+			"quick":    "all C02 bodies unmutated; mutations (9 site kinds at every site, declaration drops, unused param, three forms of mixed soydoc/header declarations) on every sixth body",
 			"thorough": "mutations on every body; nested blocks over inner lists of <=2 leaves",
 		},
 		Assumptions: commonAssumptions, Plain: true, QuickStride: 1, ThoroughStride: 2, QuickDeadline: 420, ThoroughDeadline: 3000,
@@ -91,7 +91,7 @@ var specs = map[string]spec{
 		Level:     "model_checking",
 		Rule:      "a state is a (modes, route, directive chain) configuration; transitions = renders (counter renders), one per value; non-trivial = the configuration compiled and was rendered for all values",
 		Bounds: map[string]string{
-			"quick":    "5 namespace modes x 4 template modes x all directive chains of length <=2 over 11 directive forms x 530 values; 8 routes x 20 caller modes x 9 callee modes x 8 values",
+			"quick":    "5 namespace modes x 4 template modes x all directive chains of length <=2 over 11 directive forms x 530 values; 8 routes x 20 caller modes x 9 callee modes x 8 values; 2 modes x 12x12 directive pairs on one value printed twice in a message, source vs identity bundle, x 7 values",
 			"thorough": "adds chains of length 3 over the six HTML-relevant directive forms",
 		},
 		Assumptions: commonAssumptions, Plain: true, QuickStride: 1, ThoroughStride: 1, QuickDeadline: 420, ThoroughDeadline: 3000,
@@ -139,7 +139,7 @@ var specs = map[string]spec{
 		Level:     "model_checking",
 		Rule:      "a state is a (message body, meaning) pair; transitions = compilations under distinct map orders and surroundings (counter map_orders_explored); every case is non-trivial (id and names compared)",
 		Bounds: map[string]string{
-			"quick":    "bodies of <=3 parts over 26 parts (meanings on bodies <=2), 5 plural variables x 8 case sets x a fifth of 42 bodies; 4 surroundings each; map-order deviation bound 2",
+			"quick":    "bodies of <=3 parts over 26 parts (meanings on bodies <=2), 5 plural variables x 8 case sets x a fifth of 42 bodies; 4 surroundings each under map-order deviation bound 2, plus ten copies inside every block kind (canonical order)",
 			"thorough": "deviation bound 3; additionally all 4-part bodies over the 10 colliding parts; all plural bodies",
 		},
 		Assumptions: commonAssumptions, Plain: true, QuickStride: 1, ThoroughStride: 3, QuickDeadline: 420, ThoroughDeadline: 3000, OrderSensitive: true,
@@ -151,7 +151,7 @@ var specs = map[string]spec{
 		Level:     "model_checking",
 		Rule:      "a state is a bundle (snippet pair x injected errors); transitions = pipeline executions under distinct map orders and insertion orders (counter map_orders_explored); every case is non-trivial",
 		Bounds: map[string]string{
-			"quick":    "78 snippet pairs without errors + adjacent pairs x 7 error sets; 6 insertion orders; map-order deviation bound 2/1",
+			"quick":    "78 snippet pairs without errors + adjacent pairs x 7 error sets; 6 insertion orders; map-order deviation bound 2/1; a second compilation in the canonical-order executions; package variables restored before every execution",
 			"thorough": "all pairs x all error sets; deviation bound 3 (capped at 20000 orders per bundle) for the first insertion order, 1 for the others",
 		},
 		Assumptions: commonAssumptions, Plain: true, QuickStride: 1, ThoroughStride: 1, QuickDeadline: 420, ThoroughDeadline: 3000, OrderSensitive: true,
@@ -163,7 +163,7 @@ var specs = map[string]spec{
 		Level:     "model_checking",
 		Rule:      "states = distinct (Go value, options) conversions + distinct Soy values checked for the laws; transitions = conversions + per-value law rows (counter pairs counts the Equals pairs); non-trivial = conversion returned a value",
 		Bounds: map[string]string{
-			"quick":    "58 leaves x 8 wrappers, every third level-1 value wrapped again x 5, 18 typed containers; 2 option settings; all ordered pairs of the distinct resulting values",
+			"quick":    "65 leaves (incl. integers beyond 2^53 next to the floats they round to) x 8 wrappers, every third level-1 value wrapped again x 5, 18 typed containers; 2 option settings; all ordered pairs of the distinct resulting values",
 			"thorough": "same",
 		},
 		Assumptions: commonAssumptions, Plain: true, QuickStride: 1, ThoroughStride: 1, QuickDeadline: 420, ThoroughDeadline: 3000,
@@ -187,19 +187,19 @@ var specs = map[string]spec{
 		Level:     "model_checking",
 		Rule:      "a state is a (file, line ending, line, fault, placement) tuple; a transition is one parse or compile+render; non-trivial = the mutated input produced an error whose position was checked",
 		Bounds: map[string]string{
-			"quick":    "4 files (11-19 lines) x 2 line endings x every line x 14 faults x 2 placements; 7 lines x 5 attribute faults x 2 endings; 2 endings x depth 0-3 x 6 paddings x 5 block kinds x 4 failing prints",
+			"quick":    "4 files (11-19 lines) x 2 line endings x every line x 14 faults x 2 placements; 7 lines x 5 attribute faults x 2 endings; 2 endings x depth 0-3 x 6 paddings x 7 positions (5 block kinds, calls with value params / a block param on their own lines) x 4 failing prints; inputs under distinct names, one shared name (both orders) and the empty name",
 			"thorough": "same",
 		},
 		Assumptions: commonAssumptions, Plain: true, QuickStride: 1, ThoroughStride: 1, QuickDeadline: 420, ThoroughDeadline: 3000,
 	},
 	"C09": {
-		LevelText: "three complementary exhaustive explorations on one freshly compiled (cold) bundle: (1) every interleaving of two logical threads (three in the thorough tier), each running one of 8 operations (renders of the same and different templates over shared data and a shared message bundle, failing render, JavaScript generation under both formatters, compilation of an independent bundle), under a controlled scheduler whose yield points are every 4th (preemption bound 1) and every 32nd (bound 2) instrumented function entry / loop iteration of each thread, plus thread start, exit and channel operations, up to the preemption bound, each thread's output compared with its solo output; (2) solo runs in which a deep digest of all shared state is taken at the yield points - no step may change it (render code has no synchronisation, so a write to shared state is a data race, and steps that write nothing shared commute); (3) the same bodies free-running on real goroutines in a -race build, the detector's reports being violations",
+		LevelText: "three complementary exhaustive explorations on one freshly compiled (cold) bundle: (1) every interleaving of two logical threads (three in the thorough tier), each running one of 10 operations (renders of the same and different templates over shared data and a shared message bundle, a failing render and a failure two calls deep, JavaScript generation under both formatters and through a shared Generator, compilation of an independent bundle), every execution starting from restored package-level variables, under a controlled scheduler whose yield points are every 4th (preemption bound 1) and every 32nd (bound 2) instrumented function entry / loop iteration of each thread, plus thread start, exit and channel operations, up to the preemption bound, each thread's output compared with its solo output; (2) solo runs in which a deep digest of all shared state is taken at the yield points and at every synchronisation operation - no unsynchronised step may change it (on the pinned tree the render code has no synchronisation, so a write to shared state is a data race, and steps that write nothing shared commute; sync and sync/atomic are replaced by shims whose operations are scheduling points; state changed under a lock, and the contents of pools, are left to (1) and (3)); (3) the same bodies free-running on real goroutines in a -race build, the detector's reports being violations",
 		LevelNote: "the cooperative scheduler's hand-offs hide races from the detector, hence the separate free-running -race pass (a detector report is never a false positive; silence there is supporting evidence only); scheduler granularity is function entry / loop iteration; preemption bound 2 for the render/render scenarios and 1 for the others in the quick tier",
 		Technique: "stateless model checking under a controlled scheduler (preemption-bounded DFS), shared-state digest invariant, plus a free-running race-detector pass",
 		Level:     "model_checking",
 		Rule:      "states = thread-operation scenarios (ordered pairs/triples of operations) + solo operations; transitions = complete schedules executed (counter schedules) + digested solo steps; every scenario is non-trivial (>=2 threads contend for the same compiled bundle)",
 		Bounds: map[string]string{
-			"quick":    "8 operations; all 64 ordered pairs on 2 threads; every schedule with <=1 preemption at every 4th yield point and <=2 preemptions at every 32nd; a non-canonical successor at a blocking switch counts as a deviation; solo digest every third step; race pass 64 scenarios x 3 goroutines x 30 cold starts",
+			"quick":    "10 operations; all 100 ordered pairs on 2 threads; every schedule with <=1 preemption at every 4th yield point and <=2 preemptions at every 32nd; a non-canonical successor at a blocking switch counts as a deviation; solo digest every third step; race pass 100 scenarios x 3 goroutines x 30 cold starts",
 			"thorough": "3 threads; every schedule with <=1 preemption at every instrumented point and <=2 preemptions at every 12th (each capped at 2000000 schedules per worker and scenario); race pass x 200 cold starts",
 		},
 		Assumptions: commonAssumptions, Plain: true, QuickStride: 1, ThoroughStride: 1, QuickDeadline: 420, ThoroughDeadline: 3000, Race: true, OrderSensitive: true,
@@ -223,7 +223,7 @@ var specs = map[string]spec{
 		Level:     "model_checking",
 		Rule:      "a state is a distinct (origin, literal) carrier, name or bundle; a transition is one generate+parse(+evaluate+call); non-trivial = the compiler accepted the bundle so JavaScript was generated and judged",
 		Bounds: map[string]string{
-			"quick":    "11 origins x (127 ASCII bytes + 162 special pairs + 24 special strings); 5 namespaces x 4 names; every third body of the C02 grammar (syntax under both formatters; every fifth of those evaluated)",
+			"quick":    "12 origins x (127 ASCII bytes + 162 special pairs + 49 special strings incl. 6-9 kB non-ASCII runs at 4 byte offsets and non-printable code points outside the basic plane); 5 namespaces x 4 names; 66 reserved / generator / global identifiers x 6 uses; every third body of the C02 grammar (syntax under both formatters; every fifth of those evaluated)",
 			"thorough": "every body of the C02 grammar",
 		},
 		Assumptions: commonAssumptions, Plain: true, QuickStride: 6, ThoroughStride: 6, QuickDeadline: 500, ThoroughDeadline: 3000,
@@ -235,7 +235,7 @@ var specs = map[string]spec{
 		Level:     "model_checking",
 		Rule:      "a state is a group of three generated messages (one bundle, one extractor run); transitions = renders with a catalogue (counter renders); every group is non-trivial",
 		Bounds: map[string]string{
-			"quick":    "message bodies of <=3 parts over 14 parts (+ call and meaning variants for 2-part bodies), 26 plurals; 3+7 catalogues x 3 locales x 4 data sets each",
+			"quick":    "message bodies of <=3 parts over 14 parts (+ call and meaning variants for 2-part bodies), 26 plurals; 3+7 catalogues x 3 locales x 4 data sets each; every plain message also before and after a neighbour message with like-named placeholders",
 			"thorough": "same",
 		},
 		Assumptions: commonAssumptions, Plain: true, QuickStride: 8, ThoroughStride: 8, QuickDeadline: 500, ThoroughDeadline: 3000,
